@@ -113,10 +113,15 @@ type Obs struct {
 	RandOverrun int
 	WallMs      int64
 	// state and wire after the exchange
-	AfterEncrypted bool   // m.encrypted after CreateConnection returned
-	PostReq        string // what one ordinary request (ping) made afterwards did: pong-ok | wrong:<type> | err:<text> | panic:<text> | pending
-	PostPlain      int    // plain frames that request put on the wire
-	HangRetried    bool   // a hang verdict was re-run alone with the long watchdog
+	AfterEncrypted  bool   // m.encrypted after CreateConnection returned
+	PostReq         string // what one ordinary request (ping) made afterwards did: pong-ok | wrong:<type> | err:<text> | panic:<text> | pending
+	PostPlain       int    // plain frames that request put on the wire
+	HangRetried     bool   // a hang verdict was re-run alone with the long watchdog
+	StoreCalls      int    // SessionStorage.Store calls up to and including the probe request
+	ChatterFirst    string // after an abandoned exchange: the first of the five further server messages
+	AfterChatter    string // ... and store calls / client state / session file after them
+	PlainChatterOK  string // after a successful exchange: effect of the five unencrypted messages
+	EncNotification string // ... and of the legitimate encrypted new_session_created
 }
 
 func unhex(s string) []byte { return vc.UnHex(s) }
@@ -171,6 +176,54 @@ func fault(c *Case) *hsserver.Fault {
 	return &hsserver.Fault{Target: c.Fault.Target, Kind: c.Fault.Kind, Pos: c.Fault.Pos, Rand: unhex(c.Fault.Rand), Adopt: c.Fault.Adopt}
 }
 
+// countingStore is the SessionStorage handed to the client: the file store of the repository, with every Store counted
+type countingStore struct {
+	inner  session.SessionLoader
+	mu     sync.Mutex
+	stores int
+	last   string
+}
+
+func (c *countingStore) Load() (*session.Session, error) { return c.inner.Load() }
+func (c *countingStore) Store(s *session.Session) error {
+	c.mu.Lock()
+	c.stores++
+	c.last = fmt.Sprintf("key %d bytes, hash %d bytes, salt %x, host %q", len(s.Key), len(s.Hash), uint64(s.Salt), s.Hostname)
+	c.mu.Unlock()
+	return c.inner.Store(s)
+}
+func (c *countingStore) count() (int, string) {
+	c.mu.Lock()
+	defer c.mu.Unlock()
+	return c.stores, c.last
+}
+
+// settle waits up to d, returning early when cond holds (polling: the client has no hook that says "read")
+func settle(d time.Duration, cond func() bool) {
+	deadline := time.Now().Add(d)
+	for time.Now().Before(deadline) {
+		if cond() {
+			// give the remaining messages the chance to be read too
+			time.Sleep(15 * time.Millisecond)
+			return
+		}
+		time.Sleep(3 * time.Millisecond)
+	}
+}
+
+func sessionFile(path, addr string) string {
+	if s, err := session.NewFromFile(path).Load(); err == nil && s != nil {
+		hostOK := "host-other"
+		if s.Hostname == addr {
+			hostOK = "host-ok"
+		}
+		return vc.Hex(s.Key) + "|" + vc.Hex(s.Hash) + "|" + vc.Hex(hsserver.U64(uint64(s.Salt))) + "|" + hostOK
+	} else if _, serr := os.Stat(path); serr == nil {
+		return "unreadable"
+	}
+	return "-"
+}
+
 var keepAlive []interface{} // servers and clients of finished cases: never closed inside a worker (see package comment)
 
 func runCase(c *Case) Obs {
@@ -186,8 +239,9 @@ func runCase(c *Case) Obs {
 	defer os.RemoveAll(dir)
 	sess := filepath.Join(dir, "session.json")
 	k := testKeys[c.Key%len(testKeys)]
+	store := &countingStore{inner: session.NewFromFile(sess)}
 	m, err := mtproto.NewMTProto(mtproto.Config{
-		AuthKeyFile: sess, ServerHost: srv.Addr(),
+		SessionStorage: store, ServerHost: srv.Addr(),
 		PublicKey: &rsa.PublicKey{N: k.N, E: int(k.E.Int64())},
 	})
 	if err != nil {
@@ -261,6 +315,33 @@ func runCase(c *Case) Obs {
 		o.ClientHash = vc.Hex(h)
 		o.ClientSalt = vc.Hex(hsserver.U64(uint64(m.GetServerSalt())))
 	}
+	// the server speaks again on the still open connection after an ABANDONED exchange: unencrypted new_session_created,
+	// bad_server_salt, rpc_result, a container holding new_session_created, 40 bytes of garbage with a non-zero key id
+	// (all five, the first one rotating with the case).  Nothing of it may reach the session store or the client state.
+	if o.Class == "err" || o.Class == "panic" {
+		kinds := hsserver.ChatterKinds
+		rot := 0
+		for _, ch := range c.ID {
+			rot += int(ch)
+		}
+		for i := range kinds {
+			k := kinds[(i+rot)%len(kinds)]
+			if err := srv.SendChatter(k, 0x1badc0de00000000+uint64(i)); err != nil {
+				break
+			}
+			if i == 0 {
+				o.ChatterFirst = k
+			}
+			time.Sleep(8 * time.Millisecond)
+		}
+		settle(60*time.Millisecond, func() bool { n, _ := store.count(); return n > 0 })
+		enc, key, _, salt, _ := m.VerifSessionState()
+		n, last := store.count()
+		o.AfterChatter = fmt.Sprintf("stores=%d encrypted=%v key=%d salt=%x file=%s", n, enc, len(key), uint64(salt), tail(sessionFile(sess, srv.Addr()), 12))
+		if n > 0 {
+			o.AfterChatter += " last-store: " + last
+		}
+	}
 	// one ordinary request on the same client: after success it must be sent encrypted, be readable by the server
 	// and be answered (rpc_result{pong}); after an abandoned exchange nothing encrypted may reach the wire
 	if o.Class != "hang" {
@@ -292,16 +373,28 @@ func runCase(c *Case) Obs {
 			o.PostReq = "pending"
 		}
 	}
-	if s, err := session.NewFromFile(sess).Load(); err == nil && s != nil {
-		hostOK := "host-other"
-		if s.Hostname == srv.Addr() {
-			hostOK = "host-ok"
+	o.Session = sessionFile(sess, srv.Addr())
+	o.StoreCalls, _ = store.count()
+	// ... and after a SUCCESSFUL exchange: the unencrypted messages must change nothing (the key exchange is over, the
+	// session is encrypted); the encrypted new_session_created is legitimate: salt taken over and stored
+	if o.Class == "ok" && o.PostReq == "pong-ok" {
+		before, _ := store.count()
+		salt0 := m.GetServerSalt()
+		for i, k := range hsserver.ChatterKinds {
+			_ = srv.SendChatter(k, 0x1badc0de00000000+uint64(i))
+			time.Sleep(8 * time.Millisecond)
 		}
-		o.Session = vc.Hex(s.Key) + "|" + vc.Hex(s.Hash) + "|" + vc.Hex(hsserver.U64(uint64(s.Salt))) + "|" + hostOK
-	} else if _, serr := os.Stat(sess); serr == nil {
-		o.Session = "unreadable"
-	} else {
-		o.Session = "-"
+		settle(60*time.Millisecond, func() bool { n, _ := store.count(); return n > before || m.GetServerSalt() != salt0 })
+		n1, last := store.count()
+		o.PlainChatterOK = fmt.Sprintf("stores+%d salt-changed=%v", n1-before, m.GetServerSalt() != salt0)
+		if n1 != before {
+			o.PlainChatterOK += " last-store: " + last
+		}
+		salt1 := m.GetServerSalt()
+		_ = srv.SendChatter("enc-new_session_created", 0x600dc0de12345678)
+		settle(300*time.Millisecond, func() bool { return uint64(m.GetServerSalt()) == 0x600dc0de12345678 })
+		n2, _ := store.count()
+		o.EncNotification = fmt.Sprintf("stores+%d salt-taken=%v (salt before %x)", n2-n1, uint64(m.GetServerSalt()) == 0x600dc0de12345678, uint64(salt1))
 	}
 	for _, e := range srv.Events() {
 		switch e.Dir {
@@ -779,19 +872,25 @@ func direct(c *Case, o *Obs) (string, string) {
 		if o.PostReq != "pong-ok" {
 			return bad("after a successful key exchange an ordinary request (ping, answered by the server with rpc_result{pong}) did not complete: %s", o.PostReq)
 		}
+		if o.StoreCalls != 1 {
+			return bad("a successful key exchange wrote the session store %d times, not once", o.StoreCalls)
+		}
+		if c.Prop == "C06" && o.PlainChatterOK != "stores+0 salt-changed=false" {
+			return bad("after the successful exchange UNENCRYPTED new_session_created / bad_server_salt / rpc_result / container / garbage changed the session: %s", o.PlainChatterOK)
+		}
 		return "ok", ""
 	case "abort":
 		if o.Class == "ok" {
 			return bad("the key exchange succeeded although the server's reply was inconsistent (%s)", c.Desc)
+		}
+		if why := leftBehind(o); why != "" {
+			return bad("%s", why)
 		}
 		if o.Session != "-" {
 			return bad("a session was stored by an abandoned key exchange")
 		}
 		if o.EncSeen != 0 {
 			return bad("an encrypted request was sent after an abandoned key exchange")
-		}
-		if why := leftBehind(o); why != "" {
-			return bad("%s", why)
 		}
 		return "ok", ""
 	default: // any: the fault is not detectable as such; no panic/hang, and success only with agreeing secrets
@@ -820,6 +919,13 @@ func direct(c *Case, o *Obs) (string, string) {
 // leftBehind: what an abandoned key exchange must not leave in the client (read through the verif export right after
 // CreateConnection returned its error, before the probe request)
 func leftBehind(o *Obs) string {
+	if o.StoreCalls != 0 && o.AfterChatter == "" {
+		return fmt.Sprintf("the session store was written %d time(s) although the key exchange was abandoned", o.StoreCalls)
+	}
+	if o.AfterChatter != "" && !strings.HasPrefix(o.AfterChatter, "stores=0 encrypted=false key=0 salt=0 file=-") {
+		return "after the abandoned exchange the server sent five more messages on the same connection (first: " + o.ChatterFirst +
+			"; unencrypted new_session_created / bad_server_salt / rpc_result / container, 40 bytes of garbage) and the client did not stay clean: " + o.AfterChatter
+	}
 	if o.AfterEncrypted {
 		return "the client is in the encrypted state after an abandoned key exchange"
 	}
@@ -878,7 +984,8 @@ func writeOutputs(cs []Case, obs []Obs, outdir string) {
 			dash(o.ClientKey), dash(o.ClientHash), dash(o.ClientSalt), dash(o.Session),
 			dash(o.SrvKey), dash(o.SrvKeyID), dash(o.SrvSalt), dash(o.SrvHash1),
 			strconv.Itoa(o.EncSeen), strconv.FormatBool(o.EncOpened), dash(o.EncPacket), fj, dash(tail(o.ErrText, 200)), dash(o.Rejected),
-			dash(o.PostReq), strconv.FormatBool(o.AfterEncrypted), strconv.Itoa(o.PostPlain), strconv.FormatBool(o.HangRetried))
+			dash(o.PostReq), strconv.FormatBool(o.AfterEncrypted), strconv.Itoa(o.PostPlain), strconv.FormatBool(o.HangRetried),
+			strconv.Itoa(o.StoreCalls), dash(o.AfterChatter), dash(o.PlainChatterOK), dash(o.EncNotification))
 
 		// model input block
 		k := testKeys[c.Key%len(testKeys)]
